@@ -597,16 +597,17 @@ func (e *connEnv) respond(k int, kind string) bool {
 }
 
 func errText(k, n int) string {
-	s := fmt.Sprintf("E#%d|", k)
+	s := make([]byte, 0, n+8)
+	s = append(s, fmt.Sprintf("E#%d|", k)...)
 	parts := []string{"é", "€", "x", "\"", "<", "&", "y"}
 	for i := 0; len(s) < n; i++ {
 		p := parts[(i+k)%len(parts)]
 		if len(s)+len(p) > n {
 			p = "z"
 		}
-		s += p
+		s = append(s, p...)
 	}
-	return s
+	return string(s)
 }
 
 func (e *connEnv) feedFrame(frame []byte) bool {
